@@ -52,6 +52,30 @@ theorem C19_grpcweb (h : Hdrs) :
   cases h1 : headerHasToken h.connection tokUpgrade <;> cases h2 : headerHasToken h.upgrade tokWebsocket <;>
     cases h3 : headerHasToken h.protocol tokGrpcWS <;> cases h4 : isGRPCWebContentType (first h.contentType) <;> simp
 
+/-- **The parameters do not have to be well-formed.**  If the media type (what precedes the parameters)
+    begins with `application/grpc-web` in any case — the type itself, `+proto`, any suffix — then the request
+    is gRPC-Web WHATEVER byte string follows it: optional whitespace, `; charset=utf-8`, an attribute-only
+    `; charset`, `;;`, unquoted tspecials, repeated parameters, an unterminated quoted string, a `,`-folded
+    duplicate, non-ASCII bytes.  (No parser is involved, so no parse error can change the dispatch.) -/
+theorem C19_grpcweb_any_parameters (h : Hdrs) (mt tail : Bytes) (more : List Bytes)
+    (hct : h.contentType = (mt ++ tail) :: more) (hmt : BeginsWithFold mt grpcWebBase) (hup : ¬ IsUpgrade h) :
+    dispatch h = .grpcweb := by
+  rw [C19_grpcweb]
+  refine ⟨hup, ?_⟩
+  rw [hct]
+  exact begins_append mt grpcWebBase tail hmt
+
+/-- Conversely no parameter string can turn another media type into gRPC-Web: if the media type before the
+    first `;` does not begin with `application/grpc-web`, the request is not handled as gRPC-Web whatever
+    the parameters contain (e.g. `text/plain; x=application/grpc-web`). -/
+theorem C19_not_grpcweb_any_parameters (h : Hdrs) (mt params : Bytes) (more : List Bytes)
+    (hct : h.contentType = (mt ++ 59 :: params) :: more) (hmt : ¬ BeginsWithFold mt grpcWebBase) :
+    dispatch h ≠ .grpcweb := by
+  rw [Ne, C19_grpcweb]
+  rintro ⟨_, hb⟩
+  rw [hct] at hb
+  exact not_begins_params mt params hmt hb
+
 /-- … and as transcoded HTTP otherwise. -/
 theorem C19_http (h : Hdrs) :
     dispatch h = .http ↔ ¬ IsUpgrade h ∧ ¬ BeginsWithFold (first h.contentType) grpcWebBase := by
